@@ -42,7 +42,7 @@ TEXT = {
     "C09": "complete decision tables of the spawning calls, full state equality on rejection, lock/unlock algebra",
     "C10": "get_group_ids spec, freshness of generated names (pigeonhole; decimal rendering of naturals proved injective), membership of new tasks",
     "C11": "ids are list indices: new id = number of tasks created, never reused (after every continuation of a history a pool has at least as many tasks), pools independent, class-level indices distinct for every history",
-    "C12": "a failing worker takes the same ending path (slot released, filed as ended); collecting gathers cannot raise; reported exception is a child's",
+    "C12": "a failing worker takes the same ending path (slot released, filed as ended); collecting gathers cannot raise; reported exception is a child's; two-run noninterference: a future that raises instead of returning (worker's last await or a coroutine callback) changes nothing but the task's own record and log entries, for histories whose flush / gather_and_close collect exceptions",
     "C13": "flush never forgets a task that still holds its slot, for every history without gather_and_close and any number of overlapping flushes (FlushOK invariant); exact effect of flush's last step; collecting flush cannot raise; every flush() has returned at quiescence",
     "C14": "stop(n) = cancel of the last min(n,running) ids newest first; never raises; others unaffected",
     "C15": "as-is semantics proved exactly + closed refutations of the three violated clauses (known findings R5), negative value rejected",
